@@ -150,6 +150,23 @@ def run(chk):
                 if r is not None:
                     meta.append(dict(desc=desc, fmt=fmt, sizes=[len(f) for f in F], i=len(cases)))
                     cases.append(C.encode_case("meshio", sc=[4], idx=[r]))
+        # the seven exports of one shape under ONE stem in ONE directory, written one after the other: each file is still there afterwards,
+        # with the bytes its own export wrote (an export does not use another format's file name as scratch space)
+        stem = os.path.join(tmp, "together")
+        written = {}
+        for fmt in ("OBJ", "OFF", "PLY", "VTK", "STL", "X3D", "HTML"):
+            fn = stem + "." + fmt.lower()
+            if C.excname(sh.save, fmt, fn)[0] == "ok" and os.path.exists(fn):
+                written[fmt] = open(fn, "rb").read()
+        for fmt, data0 in written.items():
+            fn = stem + "." + fmt.lower()
+            if not os.path.exists(fn) or open(fn, "rb").read() != data0:
+                chk.violation("export-clobbered-by-another-export", dict(kind=kind, cls=type(sh).__name__, fmt=fmt, vertices=V.tolist(), faces=F,
+                                                                         what="after the other formats were written under the same stem the file is missing or changed"))
+                break
+        for fn in [stem + "." + f.lower() for f in ("OBJ", "OFF", "PLY", "VTK", "STL", "X3D", "HTML")]:
+            if os.path.exists(fn):
+                os.remove(fn)
         # exporting does not change the shape
         now = Z.state_snapshot(sh)
         now.pop("edges", None); snap.pop("edges", None)   # memoised by the OFF writer
